@@ -125,6 +125,8 @@ class Extractor:
         self.x2 = self.opts.get('x2', True)
         self.x14 = self.opts.get('x14', False)
         self.x14_n = 0
+        self.defunc = self.opts.get('defunc', [])     # X15: [{type, prefix, impl}]
+        self._defunc_fns = None
         self.fired = Counter()
         self.keep_derives = tuple(self.opts.get('keep_derives', KEEP_DERIVES_DEFAULT))
         self.debug_asserts = self.opts.get('debug_asserts', 'prove')   # 'prove' (F) | 'drop' (S)
@@ -305,6 +307,14 @@ class Extractor:
                         self.fired['X6'] += 1
                         i = e_
                         continue
+                    dfn = [d for d in self.defunc if nm == 'type ' + d['type']]
+                    if dfn:
+                        # X15 defunctionalisation: the fn-pointer type becomes an enum of the fn items of this file
+                        names = self.defunc_fns(dfn[0])
+                        self.emit_syn('#[derive(Clone, Copy)] pub enum %s { %s }' % (dfn[0]['type'], ', '.join(names)), toks[i].s)
+                        self.fired['X15'] += 1
+                        i = self.thing_end(i, hi)
+                        continue
                     if nm == 'macro unsafe_ifunc':
                         e_ = self.thing_end(i, hi)
                         self.ifunc_body = (i, e_)
@@ -388,6 +398,30 @@ class Extractor:
                     break
             if done:
                 continue
+            # ---- X15 value uses of fn items / calls through the fn-pointer field
+            if self.defunc and t.k == 'id':
+                hit = None
+                for d in self.defunc:
+                    if t.t.startswith(d['prefix']) and t.t in self.defunc_fns(d):
+                        hit = d
+                if hit is not None and toks[i - 1].t != 'fn' and not (i + 1 < hi and toks[i + 1].t == '(') \
+                        and toks[i - 1].t != '::':
+                    self.emit_syn('%s::%s' % (hit['type'], t.t))
+                    self.fired['X15'] += 1
+                    i += 1
+                    continue
+            if self.defunc and t.t == '(' and i + 5 < hi and [x.t for x in toks[i:i + 5]] == ['(', 'self', '.', 'call', ')'] \
+                    and toks[i + 5].t == '(':
+                d = [d for d in self.defunc if ctx and ctx.split('::')[-1] == d['impl']]
+                if d:
+                    c2 = match_close(toks, i + 5)
+                    args = self.src[toks[i + 6].s:toks[c2 - 1].e] if c2 > i + 6 else ''
+                    args = re.sub(r'\s+', ' ', args)
+                    arms = ', '.join('%s::%s => %s(%s)' % (d[0]['type'], n, n, args) for n in self.defunc_fns(d[0]))
+                    self.emit_syn('match self.call { %s }' % arms, toks[i].s)
+                    self.fired['X15'] += 1
+                    i = c2 + 1
+                    continue
             if t.t in OPEN:
                 depth += 1
             elif t.t in CLOSE:
@@ -683,6 +717,48 @@ class Extractor:
                     self.emit_syn('; assert(l %s r); }' % op)
             return end + (1 if has_semi else 0)
         return None
+
+    def defunc_fns(self, d):
+        """top-level fn items named <prefix>* that survive selection (closed world of values of the fn-pointer type)"""
+        if self._defunc_fns is None:
+            self._defunc_fns = {}
+        if d['type'] in self._defunc_fns:
+            return self._defunc_fns[d['type']]
+        toks = self.toks
+        names = []
+        depth = 0
+        for k, t in enumerate(toks):
+            if t.t in OPEN:
+                depth += 1
+            elif t.t in CLOSE:
+                depth -= 1
+            elif depth == 0 and t.t == 'fn' and k + 1 < len(toks) and toks[k + 1].t.startswith(d['prefix']):
+                nm = 'fn ' + toks[k + 1].t
+                # preceding cfg attributes may disable the item: evaluate them
+                j = k - 1
+                while j >= 0 and toks[j].t in ('unsafe', 'pub', ')', 'crate', '(', 'const'):
+                    j -= 1
+                ok = True
+                while j >= 0 and toks[j].t == ']':
+                    o = j
+                    dd = 0
+                    while True:
+                        if toks[o].t == ']':
+                            dd += 1
+                        elif toks[o].t == '[':
+                            dd -= 1
+                            if dd == 0:
+                                break
+                        o -= 1
+                    if toks[o + 1].t == 'cfg':
+                        pred, _ = _parse_pred(toks, o + 3)
+                        if not eval_pred(pred, self.cfg):
+                            ok = False
+                    j = o - 2
+                if ok and not self.will_drop(nm, None):
+                    names.append(toks[k + 1].t)
+        self._defunc_fns[d['type']] = names
+        return names
 
     def desugar_for(self, i, hi):
         """X14: `for PAT in S[.iter()][.rev()|.copied()|.skip(K)|.take(M)|.enumerate()]* { BODY }` over a slice S is
